@@ -24,12 +24,12 @@ theorem inlineFlush_buf (r : RState) (sh : Bool) (w h k : Nat) (b : Buf) (ls : L
     (hw : r.width = w) (hw1 : 1 ≤ w) (hn1 : 1 ≤ ls.length)
     (hc : b.cc = 0) (hp : b.pw = false) (hin : b.top + max k 1 ≤ b.cr + 1) (hwin : b.cr < b.top + h)
     (hskip : ∀ j l, ls[j]? = some l → canSkip r false sh ls.length j l = true →
-      rowShows w b (b.cr + 1 - max k 1 + j) l) :
+      rowShows w b (b.cr + 1 - max k 1 + j) (Ansi.visible l)) :
     ∀ b', b' = applyBufs w h b ((if k > 1 then [.cuu (k - 1)] else []) ++
       (paintOps r false sh ls.length 0 ls ++ [.cub w])) →
     b'.cr + 1 = b.cr + 1 - max k 1 + ls.length ∧
     b'.top = max b.top (b.cr + 1 - max k 1 + ls.length - h) ∧ b'.cc = 0 ∧ b'.pw = false ∧
-    (∀ j l, ls[j]? = some l → rowShows w b' (b.cr + 1 - max k 1 + j) l) ∧
+    (∀ j l, ls[j]? = some l → rowShows w b' (b.cr + 1 - max k 1 + j) (Ansi.visible l)) ∧
     (∀ ρ, ρ < b.cr + 1 - max k 1 → ∀ c, b'.cells ρ c = b.cells ρ c) ∧
     (sh = false → ∀ ρ, b.cr + 1 - max k 1 + ls.length ≤ ρ → ∀ c, b'.cells ρ c = b.cells ρ c) ∧
     (sh = true → ∀ ρ, b.cr + 1 - max k 1 + ls.length ≤ ρ → ρ < b'.top + h → rowBlank w b' ρ) := by
@@ -84,13 +84,13 @@ theorem inline_flush_term (r : RState) (t : Term) (halt : r.altActive = false) (
     (hin : t.main.top + max r.linesRendered 1 ≤ t.main.cr + 1) (hwin : t.main.cr < t.main.top + t.h)
     (hne : (r.buf.isEmpty || r.buf == r.lastRender) = false)
     (hskip : ∀ j l, (frameLines r)[j]? = some l → sameAsLast r j l = true →
-      rowShows t.w t.main (viewTop r t + j) l) :
+      rowShows t.w t.main (viewTop r t + j) (Ansi.visible l)) :
     ∀ t', t' = applyOps t (flush r).2 →
     t'.onAlt = false ∧ t'.w = t.w ∧ t'.h = t.h ∧ t'.alt = t.alt ∧
     t'.main.cr + 1 = viewTop r t + (frameLines r).length ∧
     t'.main.top = max t.main.top (viewTop r t + (frameLines r).length - t.h) ∧
     t'.main.cc = 0 ∧ t'.main.pw = false ∧
-    (∀ j l, (frameLines r)[j]? = some l → rowShows t.w t'.main (viewTop r t + j) l) ∧
+    (∀ j l, (frameLines r)[j]? = some l → rowShows t.w t'.main (viewTop r t + j) (Ansi.visible l)) ∧
     (∀ ρ, ρ < viewTop r t → ∀ c, t'.main.cells ρ c = t.main.cells ρ c) ∧
     (¬ r.linesRendered > (frameLines r).length → ∀ ρ, viewTop r t + (frameLines r).length ≤ ρ →
       ∀ c, t'.main.cells ρ c = t.main.cells ρ c) ∧
@@ -149,7 +149,7 @@ structure InlineInv (r : RState) (t : Term) : Prop where
   inside : t.main.top + max r.linesRendered 1 ≤ t.main.cr + 1 ∧ t.main.cr < t.main.top + t.h
   below : ∀ ρ, t.main.cr < ρ → ρ < t.main.top + t.h → rowBlank t.w t.main ρ
   cache : ∀ ls, r.lastLines = some ls → ls.length = r.linesRendered ∧
-      ∀ i l, ls[i]? = some l → rowShows t.w t.main (viewTop r t + i) l
+      ∀ i l, ls[i]? = some l → rowShows t.w t.main (viewTop r t + i) (Ansi.visible l)
   render : r.lastRender ≠ [] → r.lastLines = some (frameOf r.height r.lastRender)
 
 theorem InlineInv.write {r : RState} {t : Term} (h : InlineInv r t) (s : Bytes) :
@@ -245,7 +245,7 @@ theorem inline_flush_inv (r : RState) (t : Term) (hinv : InlineInv r t) (hq : r.
 theorem InlineInv.screen {r : RState} {t : Term} (h : InlineInv r t) {ls : List Line}
     (hls : r.lastLines = some ls) :
     ls.length = r.linesRendered ∧
-    (∀ i l, ls[i]? = some l → t.main.row t.w (viewTop r t + i) = padLine t.w l) ∧
+    (∀ i l, ls[i]? = some l → t.main.row t.w (viewTop r t + i) = padLine t.w (Ansi.visible l)) ∧
     (∀ ρ, t.main.cr < ρ → ρ < t.main.top + t.h → t.main.row t.w ρ = List.replicate t.w 32) := by
   obtain ⟨c1, c2⟩ := h.cache ls hls
   refine ⟨c1, ?_, ?_⟩
